@@ -110,6 +110,13 @@ def gen(rng, tier):
                 t = shapes_text(shape)
                 if t:
                     out.append(expect(parse_case(sch, t, d), k))
+    # the default limit (d = 128 by default): the library's own default, not a value we set
+    for k in (126, 127, 128, 129, 130, 200):
+        for c in "pnqf":
+            shape = [c] * k if c in "pn" else ["p"] * (k - 1) + [c]
+            t = shapes_text(shape)
+            if t:
+                out.append(expect(parse_case(sch, t, "default"), k))
     # deepest path in a function argument / quantifier argument / right operand of a chain
     for d in range(0, 7):
         for k in range(0, 7):
@@ -135,10 +142,10 @@ def property_oracle(line, impl_out):
     import re
     if line not in EXPECT:
         return None
-    m = re.search(r"\(settings (\d+) ", line)
+    m = re.search(r"\(settings (\d+|default) ", line)
     if not m:
         return None
-    d, n = int(m.group(1)), EXPECT[line]
+    d, n = (128 if m.group(1) == "default" else int(m.group(1))), EXPECT[line]
     o = impl_out.strip()
     if o.startswith("(ok"):
         return "ok" if n <= d else "violates: accepted nesting %d under limit %d" % (n, d)
